@@ -178,7 +178,7 @@ structure RowE where
   id : Nat
   alive : Bool
   vals : List Value
-  deriving Repr
+  deriving Repr, DecidableEq
 
 abbrev Idx (κ : Type) := List (κ × Nat)
 
@@ -187,7 +187,14 @@ structure Table where
   rows : List RowE                          -- slab slots, id = position + 1
   hidx : List (ColRef × Idx HKey)           -- hash indexes
   oidx : List (ColRef × Idx OKey)           -- B-tree indexes
-  deriving Repr
+  deriving Repr, DecidableEq
+
+instance {ε α : Type} [DecidableEq ε] [DecidableEq α] : DecidableEq (Except ε α) := fun a b =>
+  match a, b with
+  | .ok x, .ok y => if h : x = y then isTrue (by rw [h]) else isFalse (fun e => h (by cases e; rfl))
+  | .error x, .error y => if h : x = y then isTrue (by rw [h]) else isFalse (fun e => h (by cases e; rfl))
+  | .ok _, .error _ => isFalse (fun e => by cases e)
+  | .error _, .ok _ => isFalse (fun e => by cases e)
 
 def Table.empty (schema : List (ColType × Bool)) : Table := ⟨schema, [], [], []⟩
 
@@ -396,7 +403,7 @@ def slotVal (r : RowE) (i : Nat) : Value := (r.vals[i]?).getD .null
 /-- `apply_slab_vectorized_filter`: `none` = unsupported shape (the engine falls back to `select`).
     Every leaf is masked by the alive bitmap and by the column's null bitmap. -/
 def vecFilter (t : Table) : Cond → Option (List Bool)
-  | .tt => some (t.rows.map (·.alive))
+  | .tt => none       -- `Condition::True => None`: no column to take the slot count / alive bitmap from
   | .eq (.col i) (.int k) => if colType? t i = some .int
       then some (t.rows.map (fun r => r.alive && intLeaf none false k (slotVal r i))) else none
   | .ne (.col i) (.int k) => if colType? t i = some .int
@@ -503,6 +510,32 @@ def update (t : Table) (c : Cond) (sets : List (Nat × Value)) : Except Err (Tab
 def delete (t : Table) (c : Cond) : Table × Nat :=
   ((matching t c).foldl deleteOne t, (matching t c).length)
 
+/-! ## `batch_insert`: validate every row first, then append them all -/
+
+/-- the part of `insert` after validation: append a slot, add the row to every index -/
+def insertRaw (t : Table) (vals : List Value) : Table × Nat :=
+  let r : RowE := ⟨t.rows.length + 1, true, vals⟩
+  ({ t with rows := t.rows ++ [r],
+            hidx := mapIdx (idxAddRow hashKey r) t.hidx,
+            oidx := mapIdx (idxAddRow ordKey r) t.oidx }, r.id)
+
+/-- the validation pass of `batch_insert`: the first offending row (in order) decides the error -/
+def validateBatch (schema : List (ColType × Bool)) : List (List Value) → Option Err
+  | [] => none
+  | vals :: rest =>
+    if vals.length ≠ schema.length then some .typeMismatch
+    else match validateRow schema vals with
+      | some e => some e
+      | none => validateBatch schema rest
+
+def batchStep (acc : Table × List Nat) (vals : List Value) : Table × List Nat :=
+  ((insertRaw acc.1 vals).1, acc.2 ++ [(insertRaw acc.1 vals).2])
+
+def batchInsert (t : Table) (rows : List (List Value)) : Except Err (Table × List Nat) :=
+  match validateBatch t.schema rows with
+  | some e => .error e
+  | none => .ok (rows.foldl batchStep (t, []))
+
 /-! ## operation sequences (the reachable states) -/
 
 inductive Op where
@@ -513,6 +546,7 @@ inductive Op where
   | createOrd (c : ColRef)
   | dropHash (c : ColRef)
   | dropOrd (c : ColRef)
+  | batchInsert (rows : List (List Value))
 
 /-- a failing operation leaves the table unchanged -/
 def applyOp (t : Table) : Op → Table
@@ -523,9 +557,223 @@ def applyOp (t : Table) : Op → Table
   | .createOrd c => match createOrdIndex t c with | .ok t' => t' | .error _ => t
   | .dropHash c => match dropHashIndex t c with | .ok t' => t' | .error _ => t
   | .dropOrd c => match dropOrdIndex t c with | .ok t' => t' | .error _ => t
+  | .batchInsert rows => match batchInsert t rows with | .ok (t', _) => t' | .error _ => t
 
 def run (schema : List (ColType × Bool)) (ops : List Op) : Table :=
   ops.foldl applyOp (Table.empty schema)
+
+/-! ## rows-level `select` (what the aggregates fold over) -/
+
+def insertSortedRow (x : RowE) : List RowE → List RowE
+  | [] => [x]
+  | y :: ys => if x.id ≤ y.id then x :: y :: ys else y :: insertSortedRow x ys
+
+/-- `rows.sort_by_key(|r| r.id)` on row records (stable) -/
+def sortRows : List RowE → List RowE
+  | [] => []
+  | x :: xs => insertSortedRow x (sortRows xs)
+
+/-- `select` / `select_with_options` returning the row records: index path (lookup, fetch, re-check, sort)
+    or full scan (filter, sort) -/
+def selectRows (t : Table) (c : Cond) : List RowE :=
+  match tryIndexLookup t c with
+  | some ids => sortRows ((fetch t ids).filter (fun r => evaluate c r.id r.vals))
+  | none => sortRows ((scanAll t).filter (fun r => evaluate c r.id r.vals))
+
+/-- the specification on row records: the live slots for which the condition is true, in slot order -/
+def specRows (t : Table) (c : Cond) : List RowE := t.rows.filter (matchesRow c)
+
+/-! ## aggregates: `count_column`, `sum` / `avg` (the addends), `min`, `max` -/
+
+/-- `Row::get(column)` for the i-th schema column (`None` for an unknown column name and for `_id`) -/
+def colVal (r : RowE) (i : Nat) : Option Value := r.vals[i]?
+
+/-- `row.get(column).is_some_and(|v| !matches!(v, Value::Null))` -/
+def nonNull (i : Nat) (r : RowE) : Bool :=
+  match colVal r i with
+  | some .null => false
+  | some _ => true
+  | none => false
+
+/-- `count_column`: column check, unfiltered fast path, index path, scan path (none of them goes through
+    `select`) -/
+def countColumn (t : Table) (i : Nat) (c : Cond) : Except Err Nat :=
+  if t.schema.length ≤ i then .error .colNotFound else
+  match c with
+  | .tt => .ok ((scanAll t).filter (nonNull i)).length
+  | _ => match tryIndexLookup t c with
+    | some ids => .ok ((fetch t ids).filter (fun r => evaluate c r.id r.vals && nonNull i r)).length
+    | none => .ok ((scanAll t).filter (fun r => evaluate c r.id r.vals && nonNull i r)).length
+
+/-- the numeric values `sum` / `avg` add up, in the order they are added (rows of `select` in id order);
+    the f64 additions themselves are outside the model -/
+def sumTerms (i : Nat) (rows : List RowE) : List Value :=
+  rows.filterMap (fun r => match colVal r i with
+    | some (.int k) => some (.int k)
+    | some (.float b) => some (.float b)
+    | _ => none)
+
+/-- one step of the sequential `min` / `max` loop (`want` = `.lt` for min, `.gt` for max): NULL and a missing
+    column are skipped, the first value is taken, a later value replaces the current one only when
+    `partial_cmp_value` says so (incomparable values -- NaN, booleans -- never replace) -/
+def extremeStep (want : Ordering) (i : Nat) (acc : Option Value) (r : RowE) : Option Value :=
+  match colVal r i with
+  | none => acc
+  | some .null => acc
+  | some x => match acc with
+    | none => some x
+    | some cur => (match partialCmp x cur with
+        | some o => if o = want then some x else some cur
+        | none => some cur)
+
+def extremeOf (want : Ordering) (i : Nat) (rows : List RowE) : Option Value :=
+  rows.foldl (extremeStep want i) none
+
+/-- `sum` / `avg` / `min` / `max` (sequential path, fewer than `PARALLEL_THRESHOLD` = 1000 selected rows) all
+    start from `self.select(table, condition)` -/
+def aggSumTerms (t : Table) (i : Nat) (c : Cond) : List Value := sumTerms i (selectRows t c)
+def aggMin (t : Table) (i : Nat) (c : Cond) : Option Value := extremeOf .lt i (selectRows t c)
+def aggMax (t : Table) (i : Nat) (c : Cond) : Option Value := extremeOf .gt i (selectRows t c)
+
+/-! ## `select_iter`, `StreamingCursor::with_max_rows`, the router's OFFSET / LIMIT -/
+
+/-- `select_iter(CursorOptions { limit, offset })` -/
+def selectIter (t : Table) (c : Cond) (limit : Option Nat) (offset : Nat) : List Nat :=
+  match limit with
+  | some l => selectLimit t c l offset
+  | none =>
+    if 0 < offset then
+      (if (select t c).length ≤ offset then [] else (select t c).drop offset)
+    else select t c
+
+/-- `StreamingCursor` with an optional `max_rows`: every page asks for
+    `min(max_rows - rows_yielded, batch_size)` rows at `current_offset` -/
+def pagesMax (sel : Nat → Nat → List Nat) (batch : Nat) (max : Option Nat) : Nat → Nat → Nat → List Nat
+  | 0, _, _ => []
+  | fuel + 1, off, yielded =>
+    let fetch : Option Nat := match max with
+      | some m => if m - yielded = 0 then none else some (min (m - yielded) batch)
+      | none => some batch
+    match fetch with
+    | none => []
+    | some n =>
+      let p := sel n off
+      if p.isEmpty then []
+      else if p.length < n then p
+      else p ++ pagesMax sel batch max fuel (off + p.length) (yielded + p.length)
+
+def cursorSelectMax (t : Table) (c : Cond) (batch : Nat) (max : Option Nat) : List Nat :=
+  pagesMax (fun l o => selectLimit t c l o) batch max (t.rows.length + 1) 0 0
+
+/-- `QueryRouter::exec_select` (parsed text): `select_columnar(prefer_columnar)` then OFFSET then LIMIT -/
+def routerSelect (t : Table) (c : Cond) (limit offset : Option Nat) : List Nat :=
+  let rows := columnarSelect t c
+  let rows := match offset with
+    | some o => if o < rows.length then rows.drop o else []
+    | none => rows
+  match limit with
+  | some l => rows.take l
+  | none => rows
+
+/-- `QueryRouter::execute_select` (legacy text): `select` then `truncate(limit)` -/
+def routerSelectLegacy (t : Table) (c : Cond) (limit : Option Nat) : List Nat :=
+  match limit with
+  | some l => (select t c).take l
+  | none => select t c
+
+/-! ## `max_condition_depth`: the engine evaluates conditions with `evaluate_with_depth` -/
+
+def condDepth : Cond → Nat
+  | .and a b => 1 + max (condDepth a) (condDepth b)
+  | .or a b => 1 + max (condDepth a) (condDepth b)
+  | _ => 0
+
+/-- `Condition::evaluate_with_depth(row, depth, max_depth)`: `ConditionTooDeep` (`.error ()`) as soon as a
+    node deeper than `max_depth` is reached; `&&` / `||` short-circuit, so an unreached deep node is no error -/
+def evalDepth (mx : Nat) : Cond → Nat → Nat → List Value → Except Unit Bool
+  | .and a b, d, id, row =>
+    if mx < d then .error () else
+    match evalDepth mx a (d + 1) id row with
+    | .error e => .error e
+    | .ok false => .ok false
+    | .ok true => evalDepth mx b (d + 1) id row
+  | .or a b, d, id, row =>
+    if mx < d then .error () else
+    match evalDepth mx a (d + 1) id row with
+    | .error e => .error e
+    | .ok true => .ok true
+    | .ok false => evalDepth mx b (d + 1) id row
+  | .tt, d, _, _ => if mx < d then .error () else .ok true
+  | .eq c v, d, id, row => if mx < d then .error () else .ok (evaluate (.eq c v) id row)
+  | .ne c v, d, id, row => if mx < d then .error () else .ok (evaluate (.ne c v) id row)
+  | .rng op c v, d, id, row => if mx < d then .error () else .ok (evaluate (.rng op c v) id row)
+
+/-- `iter.filter_map(evaluate_with_depth ...).collect::<Result<Vec<_>>>()`: the first error aborts -/
+def filterE (mx : Nat) (c : Cond) : List RowE → Except Unit (List RowE)
+  | [] => .ok []
+  | r :: rs => match evalDepth mx c 0 r.id r.vals with
+    | .error e => .error e
+    | .ok b => (match filterE mx c rs with
+        | .error e => .error e
+        | .ok l => .ok (if b then r :: l else l))
+
+/-- the early-terminating scan loop of `select_with_limit`: rows after the `need`-th match are never
+    evaluated (so they cannot raise `ConditionTooDeep`) -/
+def scanLimitE (mx : Nat) (c : Cond) : List RowE → Nat → Except Unit (List RowE)
+  | [], _ => .ok []
+  | r :: rs, need => match evalDepth mx c 0 r.id r.vals with
+    | .error e => .error e
+    | .ok true =>
+      if need ≤ 1 then .ok [r]
+      else (match scanLimitE mx c rs (need - 1) with
+        | .error e => .error e
+        | .ok l => .ok (r :: l))
+    | .ok false => scanLimitE mx c rs need
+
+def mapE {α β : Type} (f : α → β) : Except Unit α → Except Unit β
+  | .ok a => .ok (f a)
+  | .error e => .error e
+
+def selectE (mx : Nat) (t : Table) (c : Cond) : Except Unit (List Nat) :=
+  match tryIndexLookup t c with
+  | some ids => mapE (fun l => sortIds (l.map (·.id))) (filterE mx c (fetch t ids))
+  | none => mapE (fun l => sortIds (l.map (·.id))) (filterE mx c (scanAll t))
+
+def countE (mx : Nat) (t : Table) (c : Cond) : Except Unit Nat :=
+  match c with
+  | .tt => .ok (scanAll t).length
+  | _ => match tryIndexLookup t c with
+    | some ids => mapE List.length (filterE mx c (fetch t ids))
+    | none => mapE List.length (filterE mx c (scanAll t))
+
+def selectLimitE (mx : Nat) (t : Table) (c : Cond) (limit offset : Nat) : Except Unit (List Nat) :=
+  if limit = 0 then .ok []
+  else match tryIndexLookup t c with
+    | some ids => mapE (fun l => ((sortIds (l.map (·.id))).drop offset).take limit) (filterE mx c (fetch t ids))
+    | none => mapE (fun l => ((sortIds (l.map (·.id))).drop offset).take limit)
+        (scanLimitE mx c (scanAll t) (offset + limit))
+
+/-- the vectorised path never looks at the depth -/
+def columnarE (mx : Nat) (t : Table) (c : Cond) : Except Unit (List Nat) :=
+  if hasFilterCol c && filterColsKnown t c then
+    match vecFilter t c with
+    | some bits => .ok (selectedIds t.rows bits)
+    | none => selectE mx t c
+  else selectE mx t c
+
+/-- `tx_update` / `tx_delete` collect the matching rows with `evaluate_with_depth` before touching anything -/
+def deleteE (mx : Nat) (t : Table) (c : Cond) : Except Unit (Table × Nat) :=
+  match filterE mx c (scanAll t) with
+  | .error e => .error e
+  | .ok l => .ok (l.foldl deleteOne t, l.length)
+
+def updateE (mx : Nat) (t : Table) (c : Cond) (sets : List (Nat × Value)) :
+    Except Unit (Except Err (Table × Nat)) :=
+  match validateSets t.schema sets with
+  | some e => .ok (.error e)
+  | none => match filterE mx c (scanAll t) with
+    | .error e => .error e
+    | .ok l => .ok (.ok (l.foldl (updateOne sets) t, l.length))
 
 /-! ## the defective variants found on the real engine, kept for the `_witness` theorems only -/
 
